@@ -263,7 +263,7 @@ pub fn run(ctx: &Ctx) -> Report {
                 for h in histories(spec, &syms, n) {
                     cases.push(Case { spec, h: h.clone(), color, early: false, busy: None });
                     if n == 1 {
-                        for d in [3u32, 10_000] {
+                        for d in [3u32, 10_007] {
                             cases.push(Case { spec, h: h.clone(), color, early: false, busy: Some(d) });
                         }
                     }
